@@ -856,6 +856,73 @@ class StructCmp(Component):
         h, cls, f = parse_outcome(impl)
         return ['class=' + cf.get('class', '?'), 'struct=' + f.get('struct', '?').split(':')[0], 'dec=' + f.get('dec', '?').split(':')[0]]
 
+# ------------------------------------------------------------------------------------------------
+# C14 — interrupted encodes
+# ------------------------------------------------------------------------------------------------
+class CrashPrefix(Component):
+    name = 'crash'
+    ops = ('crash',)
+    profiles = ('release',)
+    ignore = ('s',)
+    def cases(self, rng, tier, boost):
+        out = []
+        n = self.budget(tier, boost, 60, 3000)
+        for i in range(n):
+            ch = rng.choice([1, 2, 2, 3])
+            bps = rng.choice([8, 16, 24, 12, 32])
+            bs = rng.choice([16, 16, 20, 32])
+            nblocks = rng.randint(1, 5)
+            frames = bs * nblocks + rng.choice([0, 1, 7, bs - 1])
+            pcm, shape = gen.pcm_multi(rng, frames, ch, bps)
+            fe = rng.choice(['byte', 'sample', 'chan'])
+            f = {'fe': fe, 'endian': rng.choice(['le', 'be']), 'rate': rng.choice([44100, 20, 100]), 'ch': ch, 'bps': bps, 'bs': bs,
+                 'seek': rng.choice(['off', 'default', 'frames:1', 'frames:2', 'secs:1']), 'pad': rng.choice([0, 0, 30, 100]),
+                 'lpc': rng.choice(['none', '2', '8']), 'reader': rng.choice(['sample', 'chan']),
+                 'cuts': 'all' if (i % 3 != 0 or tier == 'thorough') else 'calls'}
+            unit = {'byte': ch * ((bps + 7) // 8), 'sample': ch, 'chan': 1}[fe]
+            if rng.random() < 0.5:
+                f['total'] = frames * unit
+            f['chunks'] = gen.join([rng.randint(1, max(1, frames * unit)) for _ in range(rng.randint(0, 3))])
+            f['pcm'] = gen.join(pcm)
+            out.append('crash ' + gen.fields_str(f))
+        return out
+    def oracle(self, case, impl, profile):
+        op, cf = parse_case(case)
+        h, cls, f = parse_outcome(impl)
+        if h == 'panic':
+            return (f'crash:panic:{cls}', 'decoding a prefix of an unfinished stream panicked: ' + cls)
+        if h != 'ok':
+            return (f'crash:write-failed:{cls}', impl[:200])
+        ends = ints(f['ends']); lens = ints(f['lens']); metalen = int(f['metalen'])
+        declared = 'total' in cf
+        ch = int(cf['ch'])
+        unit = {'byte': ch * ((int(cf['bps']) + 7) // 8), 'sample': ch, 'chan': 1}[cf['fe']]
+        total = int(cf['total']) // unit if declared else None
+        for it in f['cutres'].split(','):
+            if it in ('', '-'):
+                continue
+            cut, n, st, m = it.split(':')
+            cut, n = int(cut), int(n)
+            k = sum(1 for e in ends if e <= cut)
+            want = sum(lens[:k])
+            if m != '1':
+                return ('crash:foreign-samples', f'prefix of {cut} bytes decodes to samples that were never written')
+            if n != want:
+                return ('crash:wrong-frame-count:' + ('missing' if n < want else 'extra'), f'prefix of {cut} bytes holds {k} complete frames ({want} samples) but {n} samples were delivered')
+            if cut >= metalen:
+                if declared:
+                    good = (st == 'ok') == (want == total)
+                else:
+                    good = (st == 'ok') == (cut == metalen or cut in ends)
+                if not good:
+                    return ('crash:end-status:' + ('declared' if declared else 'undeclared'), f'prefix of {cut} bytes (complete frames end at {ends}) ended with status {st}')
+        return None
+    def nontrivial(self, case, impl):
+        return impl.startswith('ok') and impl.count(',') > 5
+    def classify(self, case, impl):
+        op, cf = parse_case(case)
+        return ['total=' + ('declared' if 'total' in cf else 'open'), 'cuts=' + cf['cuts'], 'seek=' + cf['seek'].split(':')[0]]
+
 PROPS = {}
 NOT_YET = {}
 
@@ -1094,4 +1161,20 @@ PROPS['C17'] = dict(
          'the model by construction (one expansion function) and is exhibited for the two Rust implementations.',
     trusted_base=COMMON_TRUST,
     assumptions=[],
+)
+
+PROPS['C14'] = dict(
+    module='FlacModel.Props.C14',
+    theorems=['Flac.C14.prefix_decodes_complete_frames'],
+    components=[CrashPrefix()],
+    rule='60 (quick) / 3000 (thorough) encodes stopped before finalize (byte/sample/channel writer, declared and undeclared totals, every seek-table policy, with and without padding); '
+         'the bytes that reached the stream are cut at EVERY byte (two thirds of the cases) or after every underlying write call, and each prefix is decoded by the sample or channel '
+         'reader: the samples delivered must be exactly those of the frames wholly contained in the prefix, end status clean only on a frame boundary of an undeclared-length stream; '
+         'the Lean file-decode model predicts count and status for every prefix',
+    claim='prefix_decodes_complete_frames: for any sequence of frames followed by a truncated frame (or nothing), the readers\' frame loop delivers exactly the complete frames in order and '
+          'then stops - cleanly if nothing follows, with an end-of-data error otherwise; proved by induction over the frame list for every list length.',
+    note='partial: frame locality (a frame decodes identically whatever follows it) and truncation detection (a strict prefix of a frame runs out of data) are hypotheses of the theorem '
+         '(Loc, Truncated); they are exhibited on every byte prefix by the correspondence run. The declared-total variant and the provisional header\'s parseability are covered by the run only.',
+    trusted_base=COMMON_TRUST,
+    assumptions=['Loc and Truncated (frame locality, prefix determinism of the frame parser)'],
 )
